@@ -543,6 +543,13 @@ func (g *detGen) program(n int) []*Node {
 		body = append(body, Call("debug-print", L(A("handler-bind"),
 			L(L(A("condition"), L(A("lambda"), L(A("c"), A("&rest"), A("d")), Call("list", QS("caught"), A("c"), A("d"))))), f)))
 	}
+	if g.r.Chance(1, 6) {
+		// names that differ only in letter case, then listings of the package's symbols
+		pre := []*Node{A("(set 'zcase 1)"), A("(set 'Zcase 2)"), A("(set 'ZCASE 3)"), A("(defun zCase () 1)"), A("(defmacro zcAse () 1)"), A("(export 'zcase 'ZCASE 'Zcase)")}
+		body = append(pre, body...)
+		body = append(body, A("(debug-print (help:help-package-symbols 'user true))"), A("(debug-print (help:help-package-symbols \"user\"))"),
+			A("(debug-print (sim:errtext (zcasE)))"), A("(debug-print (sim:errtext (zcase 1)))"))
+	}
 	return append(g.out, body...)
 }
 
